@@ -145,3 +145,24 @@ def simple_layout(scn, blocks, per_file=None, r=None, pad=5, first_height=0, sta
         cnt += 1
         scn.kvs.append(K.record(b.hash(), first_height + i, status, len(b.txs), fno, off, b.header(), undo=i * 7 + 1))
     return scn
+
+
+def interleaved_layout(scn, blocks, r, nfiles=3, reserve=4000, first_height=0, status=K.ACTIVE):
+    """the active chain spread over `nfiles` blk files so that consecutive heights keep jumping between files (X, Y, X, ...), every
+    file starting with `reserve` unused bytes into which other blocks (competitors) can be stored later; returns the file names"""
+    names = [K.blkname(f) for f in range(nfiles)]
+    pos = {}
+    for n in names:
+        scn.add_file(n)
+        pos[n] = reserve
+    last = None
+    for i, b in enumerate(blocks):
+        f = r.randrange(nfiles)
+        if f == last and nfiles > 1 and r.random() < 0.8:
+            f = (f + 1 + r.randrange(nfiles - 1)) % nfiles
+        last = f
+        raw = b.enc()
+        off = scn.place_block(names[f], pos[names[f]], raw)
+        pos[names[f]] = off + len(raw)
+        scn.kvs.append(K.record(b.hash(), first_height + i, status, len(b.txs), f, off, b.header(), undo=i * 7 + 1))
+    return names
